@@ -6,7 +6,16 @@ use crate::props::train_run::*;
 
 fn mixed_case(g: &mut Gen, tier: Tier, slts_share: f64) -> TrainCase {
     if g.bool(slts_share) {
-        gen_slts_case(g, tier, false)
+        let mut c = gen_slts_case(g, tier, false);
+        // a third of the link-by-link runs go through `walk_timed_path` instead: link k is
+        // handed over when a train at 5-30 m/s would reach it (slow paces make the train wait
+        // at the end of its known path, fast ones hand several links over at once)
+        if c.mode == 2 && c.links.len() >= 2 && g.bool(0.35) {
+            c.mode = 4;
+            c.timed_speed = Gen::round(g.f64(5.0, 30.0), 1);
+            c.also_real_walk = false;
+        }
+        c
     } else {
         gen_set_speed_case(g, tier, false)
     }
@@ -16,6 +25,7 @@ fn run_labels(case: &TrainCase, run: &TrainRun, cx: &mut Ctx) {
     cx.label(match case.mode {
         0 => "set_speed",
         1 => "slts_whole_path",
+        4 => "slts_walk_timed_path",
         _ => "slts_link_by_link",
     });
     cx.label_if(case.train.dummy, "dummy_consist");
